@@ -992,11 +992,12 @@ impl Gen {
         let cur = c.w.current_epoch().unwrap_or(0);
         let fmc = c.w.fm_config();
         let buffer = fmc.max_farm_epoch_buffer as u64;
-        let start_epoch = match self.rng.below(10) {
-            0..=2 => None,
-            3 => Some(cur),
-            4 => Some(cur + buffer + 1),
-            5 => Some(cur + buffer),
+        let start_epoch = match self.rng.below(20) {
+            0..=8 => None,
+            9 => Some(cur),
+            10 => Some(cur + buffer + 1),
+            11 => Some(cur + buffer),
+            12..=16 => Some(cur + self.rng.range(1, buffer.clamp(1, 3))),
             _ => Some(cur + self.rng.range(1, buffer.max(1))),
         };
         let s = start_epoch.unwrap_or(cur + 1);
@@ -1007,7 +1008,22 @@ impl Gen {
             4 if self.rng.chance(1, 5) => Some(u64::MAX / *self.rng.pick(&[1u64, 2, 86400, 100_000_000])),
             _ => Some(s + self.rng.range(1, 12)),
         };
-        let sender = self.any_sender(c);
+        let mut sender = self.any_sender(c);
+        let mut lp = lp;
+        // farms where LP is actually locked, so that rewards flow and penalties are shared
+        if self.rng.chance(1, 2) {
+            let locked: Vec<String> = c.obs.positions.iter().map(|p| p.lp_asset.denom.clone()).collect();
+            if let Some(d) = self.rng.pick_opt(&locked) {
+                lp = d.clone();
+            }
+        }
+        // several farms of one owner on one LP token (penalty shares are per owner, not per farm)
+        if self.rng.chance(1, 3) {
+            if let Some(f) = self.rng.pick_opt(&c.obs.farms) {
+                sender = f.owner.to_string();
+                lp = f.lp_denom.clone();
+            }
+        }
         // reward asset: base denom, sometimes an LP denom
         let denom = if self.rng.chance(1, 8) && !lps.is_empty() {
             self.rng.pick(&lps).clone()
